@@ -21,12 +21,12 @@ Notation erel := (erel fl).
 Definition bopen (b : binding) : option (tm * env) :=
   match b with
   | BClos e r => Some (e, r)
-  | BRec d r x => match lookup x d with Some e => Some (e, recenv d r) | None => None end
+  | BRec a d r x => match lookup x d with Some e => Some (e, recenv a d r) | None => None end
   end.
 
 Lemma force_with_bopen : forall ev b,
   force_with ev b = match bopen b with Some (e, r) => ev r e | None => Err UnboundId end.
-Proof. intros ev [e r|d r x]; cbn; [reflexivity|]. now destruct (lookup x d). Qed.
+Proof. intros ev [e r|a d r x]; cbn; [reflexivity|]. now destruct (lookup x d). Qed.
 
 Lemma weakenL_list : forall l bs t1 r1 t2 r2,
   crel bs t1 r1 t2 r2 -> (forall y, In y (map fst l) -> ~ In y (fv t1) \/ In y bs) ->
@@ -45,55 +45,58 @@ Proof.
   intros. apply crel_sym. apply weakenL_list; [now apply crel_sym|assumption].
 Qed.
 
-Lemma erel_recenv : forall d1 r1 d2 r2 l1 l2,
-  (forall g, brel (BRec d1 r1 g) (BRec d2 r2 g)) -> map fst l1 = map fst l2 ->
-  erel (map (fun p : string * tm => (fst p, BRec d1 r1 (fst p))) l1)
-       (map (fun p : string * tm => (fst p, BRec d2 r2 (fst p))) l2).
+Lemma crelf_members : forall a ns d1 r1 d2 r2 l1 l2,
+  (forall g, brel (BRec a d1 r1 g) (BRec a d2 r2 g)) ->
+  map fst d1 = ns -> map fst d2 = ns ->
+  crelf a ns [] l1 r1 l2 r2 ->
+  erel (map (member_binding a d1 r1) l1) (map (member_binding a d2 r2) l2).
 Proof.
-  intros d1 r1 d2 r2 l1. induction l1 as [|[g e] l1 IH]; intros [|[g' e'] l2] Hb Hn;
-    cbn in Hn; try discriminate; cbn [map]; constructor.
-  - cbn. injection Hn as -> _. split; [reflexivity|apply Hb].
-  - apply IH; [assumption|]. now injection Hn.
+  intros a ns d1 r1 d2 r2 l1 l2 Hb N1 N2 H. remember [] as bs eqn:Eb.
+  induction H as [| a ns bs f b1 fs1 r1 b2 fs2 r2 Hd Hc Hf IH
+                  | a ns bs f b1 fs1 r1 b2 fs2 r2 Ha Hd1 Hd2 Hc Hf IH]; cbn [map]; constructor;
+    try (apply IH; assumption).
+  - unfold member_binding. cbn [fst snd]. rewrite N1, N2. split; [reflexivity|].
+    destruct Hd as [->|[H1 H2]]; [cbn [orb]; apply Hb|].
+    rewrite H1, H2, !orb_true_r. apply Hb.
+  - unfold member_binding. cbn [fst snd]. rewrite N1, N2. rewrite Hd1, Hd2. subst a bs. cbn [orb].
+    split; [reflexivity|]. now apply B_clos.
 Qed.
 
-Lemma crelf_lookup : forall ns d1 r1 d2 r2 x,
-  crelf ns [] d1 r1 d2 r2 ->
+Lemma crelf_lookup : forall a ns d1 r1 d2 r2 x,
+  crelf a ns [] d1 r1 d2 r2 ->
   (lookup x d1 = None /\ lookup x d2 = None) \/
   (exists e1 e2, lookup x d1 = Some e1 /\ lookup x d2 = Some e2 /\
      ((crel (ns ++ []) e1 r1 e2 r2) \/
       (has_deps ns e1 = false /\ has_deps ns e2 = false /\ crel [] e1 r1 e2 r2))).
 Proof.
-  intros ns d1 r1 d2 r2 x H. remember [] as bs. induction H; subst; cbn [lookup].
+  intros a ns d1 r1 d2 r2 x H. remember [] as bs. induction H; subst; cbn [lookup].
   - now left.
   - destruct (String.eqb x f); [|auto]. right. exists b1, b2. auto.
   - destruct (String.eqb x f); [|auto]. right. exists b1, b2. auto 6.
 Qed.
 
-Lemma map_fst_recenv_pre : forall (d : list (string * tm)) r,
-  map fst (map (fun p : string * tm => (fst p, BRec d r (fst p))) d) = map fst d.
+Lemma map_fst_members : forall a (d l : list (string * tm)) r,
+  map fst (map (member_binding a d r) l) = map fst l.
 Proof. intros. rewrite map_map. reflexivity. Qed.
 
 Lemma brel_open : forall b1 b2, brel b1 b2 ->
   (bopen b1 = None /\ bopen b2 = None) \/
   (exists e1 r1 e2 r2, bopen b1 = Some (e1, r1) /\ bopen b2 = Some (e2, r2) /\ crel [] e1 r1 e2 r2).
 Proof.
-  intros b1 b2 H. destruct H as [e1 r1 e2 r2 H|x e1 r1 e2 r2 H|d1 r1 d2 r2 x H].
+  intros b1 b2 H. destruct H as [e1 r1 e2 r2 H|a d1 r1 d2 r2 x H].
   - right. exists e1, r1, e2, r2. auto.
-  - right. cbn [bopen lookup]. rewrite String.eqb_refl.
-    exists e1, (recenv [(x, e1)] r1), e2, (recenv [(x, e2)] r2). repeat split.
-    unfold recenv. cbn [map app fst]. apply crel_ext1; [assumption|]. now apply B_rec1.
-  - cbn [bopen]. destruct (crelf_lookup _ _ _ _ _ x H) as [[E1 E2]|[e1 [e2 [E1 [E2 Hc]]]]].
+  - cbn [bopen]. destruct (crelf_lookup _ _ _ _ _ _ x H) as [[E1 E2]|[e1 [e2 [E1 [E2 Hc]]]]].
     + left. now rewrite E1, E2.
-    + right. rewrite E1, E2. exists e1, (recenv d1 r1), e2, (recenv d2 r2). repeat split.
-      pose proof (crelf_names _ _ _ _ _ _ _ H) as Hn.
+    + right. rewrite E1, E2. exists e1, (recenv a d1 r1), e2, (recenv a d2 r2). repeat split.
+      pose proof (crelf_names _ _ _ _ _ _ _ _ H) as Hn.
       destruct Hc as [Hc|[Hd1 [Hd2 Hc]]].
       * unfold recenv. eapply crel_ext_list; [|exact Hc|].
-        -- apply erel_recenv; [|assumption]. intros g. now apply B_recf.
-        -- intros z. rewrite map_fst_recenv_pre. rewrite in_app_iff. tauto.
+        -- eapply crelf_members; [|reflexivity|symmetry; exact Hn|exact H]. intros g. now apply B_rec.
+        -- intros z. rewrite map_fst_members. rewrite in_app_iff. tauto.
       * unfold recenv. apply weakenL_list; [apply weakenR_list; [assumption|]|].
-        -- intros y Hy. left. rewrite map_fst_recenv_pre in Hy. rewrite <- Hn in Hy.
+        -- intros y Hy. left. rewrite map_fst_members in Hy. rewrite <- Hn in Hy.
            eapply has_deps_false; eauto.
-        -- intros y Hy. left. rewrite map_fst_recenv_pre in Hy.
+        -- intros y Hy. left. rewrite map_fst_members in Hy.
            eapply has_deps_false; eauto.
 Qed.
 
@@ -162,20 +165,14 @@ Proof.
   destruct Hm as [->|[]]. contradiction.
 Qed.
 
-Lemma crelf_fields : forall fs1 r1 fs2 r2 l1 l2,
-  crelf (map fst fs1) [] fs1 r1 fs2 r2 ->
-  crelf (map fst fs1) [] l1 r1 l2 r2 ->
+Lemma crelf_fields : forall fs1 r1 fs2 r2,
+  crelf false (map fst fs1) [] fs1 r1 fs2 r2 ->
   Forall2 (fun p1 p2 => fst p1 = fst p2 /\ brel (snd p1) (snd p2))
-    (map (field_binding fs1 r1) l1) (map (field_binding fs2 r2) l2).
+    (map (field_binding fs1 r1) fs1) (map (field_binding fs2 r2) fs2).
 Proof.
-  intros fs1 r1 fs2 r2 l1 l2 Hall H.
-  pose proof (crelf_names _ _ _ _ _ _ _ Hall) as Hn.
-  remember [] as bs. remember (map fst fs1) as ns.
-  induction H; subst; cbn [map]; constructor; auto.
-  - unfold field_binding. cbn [fst snd]. rewrite <- Hn. rewrite H, H0.
-    split; [reflexivity|]. now apply B_recf.
-  - unfold field_binding. cbn [fst snd]. rewrite <- Hn. rewrite H, H0.
-    split; [reflexivity|]. now apply B_clos.
+  intros fs1 r1 fs2 r2 H. unfold field_binding.
+  eapply crelf_members; [|reflexivity|symmetry; exact (crelf_names _ _ _ _ _ _ _ _ H)|exact H].
+  intros g. now apply B_rec.
 Qed.
 
 Lemma eval_elm_step : forall m r e,
@@ -192,7 +189,7 @@ Lemma eval_fld_step : forall m r f e, ~ In f (fv e) ->
 Proof.
   intros m r f e Hf. remember (S m) as k eqn:Hk. cbn [eval].
   assert (E1 : eval fl k r (Rec [(f, e)]) = Ok (VRec [(f, BClos e r)])).
-  { subst k. cbn [eval map]. unfold field_binding. cbn [fst snd map].
+  { subst k. cbn [eval map]. unfold field_binding, member_binding. cbn [fst snd map orb].
     now rewrite (has_deps_single _ _ Hf). }
   rewrite E1. cbn [bind lookup]. rewrite String.eqb_refl. reflexivity.
 Qed.
@@ -275,8 +272,11 @@ Proof.
     exists (S m), o'. auto.
   - (* letrec *)
     destruct n as [|k]; [cbn in He; congruence|]. cbn [eval] in He.
-    destruct (IHn k (Nat.lt_succ_diag_r k) _ _ b2 ((x, BRec [(x, e2)] r2 x) :: r2) _
-                (crel_ext1 fl _ _ _ _ _ _ _ _ Hc2 (B_rec1 fl _ _ _ _ _ Hc1)) He Ho) as [m [o' [E R]]].
+    assert (Hb : brel (BRec true [(x, e1)] r1 x) (BRec true [(x, e2)] r2 x)).
+    { apply B_rec. cbn [map fst]. apply CF_dep; [now left| |constructor].
+      eapply crel_bs_iff; [exact Hc1|]. intros z. cbn. tauto. }
+    destruct (IHn k (Nat.lt_succ_diag_r k) _ _ b2 ((x, BRec true [(x, e2)] r2 x) :: r2) _
+                (crel_ext1 fl _ _ _ _ _ _ _ _ Hc2 Hb) He Ho) as [m [o' [E R]]].
     exists (S m), o'. auto.
   - destruct n as [|k]; [cbn in He; congruence|]. cbn in He. subst res.
     exists 1, (Ok (VNum n0)). split; [reflexivity|]. cbn. constructor.
